@@ -93,6 +93,7 @@ type Node struct {
 	Cap     int                     // max headers per reply
 	// scripting knobs
 	DisconnectAtMsg int // close the FIRST connection when its n-th message arrives (0 = never)
+	VersionLag      int // the version message reports a height this many blocks below the node's chain (blocks found since)
 	DropAfterHeight int // close the connection right after sending the first getheaders answer that contains this height (0 = never)
 	droppedAfter    bool
 	StallAfterMsg   int              // on every connection: stop answering getheaders after the n-th message (0 = never)
@@ -369,7 +370,15 @@ func (c *Conn) versionMsg() *wire.MsgVersion {
 	me := wire.NewNetAddressIPPort(net.ParseIP(c.node.IP), 8333, c.node.Services)
 	you := wire.NewNetAddressIPPort(net.ParseIP("127.0.0.1"), 0, 0)
 	nonce, _ := wire.RandomUint64()
-	v := wire.NewMsgVersion(me, you, nonce, c.node.Height())
+	// VersionLag: the node found that many blocks after it sent its version message (it reports the height it had then)
+	c.node.mu.Lock()
+	lag := int32(c.node.VersionLag)
+	c.node.mu.Unlock()
+	h := c.node.Height() - lag
+	if h < 0 {
+		h = 0
+	}
+	v := wire.NewMsgVersion(me, you, nonce, h)
 	v.Services = c.node.Services
 	v.ProtocolVersion = int32(pver)
 	v.UserAgent = "/verif-node:" + c.node.Name + "/"
